@@ -71,8 +71,9 @@ type upstream struct {
 	slotsRefTriggerHook func() // only used to testing
 	slotsLastUpdateTime time.Time
 
-	quit chan struct{}
-	done chan struct{}
+	quitOnce sync.Once
+	quit     chan struct{}
+	done     chan struct{}
 }
 
 func newUpstream(cfg *config, hosts []*host.Host, logger log.Logger, stats *proc.UpstreamStats) *upstream {
@@ -101,20 +102,37 @@ func (u *upstream) Serve() {
 		defer wg.Done()
 		u.hkc.Run(u.quit)
 	}()
-	wg.Wait()
+	<-u.quit
 
-	// stop all clients
+	// stop all clients. The lock is only held for the snapshot: createClient
+	// checks quit under it, so a client is either in the snapshot or never
+	// created, and a backend reader that needs the lock (a redirection to an
+	// address without a client) is not kept from finishing by its own Stop.
 	u.clientsMu.Lock()
 	clients := u.loadClients()
+	u.clientsMu.Unlock()
+	// Every client is told to quit before anything is waited for: a backend
+	// reader or the slots refresher blocked in the Send of a client whose queue
+	// is full gives up at once.
+	for _, c := range clients {
+		c.signalQuit()
+	}
+	wg.Wait()
 	for _, c := range clients {
 		c.Stop()
 	}
-	u.clientsMu.Unlock()
 	close(u.done)
 }
 
+// signalQuit tells the upstream to stop without waiting for it.
+func (u *upstream) signalQuit() {
+	u.quitOnce.Do(func() {
+		close(u.quit)
+	})
+}
+
 func (u *upstream) Stop() {
-	close(u.quit)
+	u.signalQuit()
 	<-u.done
 }
 
@@ -816,11 +834,16 @@ func (c *client) drainRequests() {
 	}
 }
 
-func (c *client) Stop() {
-	verifhook.At("client.Stop", c)
+// signalQuit tells the client to quit without waiting for it.
+func (c *client) signalQuit() {
 	c.quitOnce.Do(func() {
 		close(c.quit)
 	})
+}
+
+func (c *client) Stop() {
+	verifhook.At("client.Stop", c)
+	c.signalQuit()
 	verifhook.At("client.Stop.quitClosed", c)
 	c.conn.Close()
 	<-c.done
